@@ -422,6 +422,18 @@ class Env:
             self.note_exchange(k, pdu, [p for (b, p) in self.sent[before:] if b == k])
         return None
 
+    def close_bearer(self, k: int):
+        """The peer closes enhanced bearer k (L2CAP Disconnection Request on the LE signalling channel); the ACL
+        link and the other bearers of the connection stay up."""
+        info = self.peer[k]
+        frame = self.l2cap.L2CAP_Disconnection_Request(identifier=0x40 + k, destination_cid=info['dcid'],
+                                                       source_cid=info['scid'])
+        try:
+            self.manager.on_pdu(self.conns[k], self.l2cap.L2CAP_LE_SIGNALING_CID, bytes(frame))
+        except Exception as e:
+            return type(e).__name__
+        return None
+
     def spawn(self, coro):
         t = asyncio.ensure_future(coro)
         t.add_done_callback(lambda t: t.cancelled() or t.exception())
@@ -524,6 +536,8 @@ def run_impl(scn):
                 e1 = env.deliver(b'\x1e', k)
                 e2 = env.deliver(b'\x1e', k)
                 esc = e1 or e2
+            elif o[0] == 'close':
+                esc = env.close_bearer(k)
             elif o[0] == 'burst':
                 # several PDUs handed over before the event loop runs again
                 for hx in o[1]:
@@ -650,10 +664,16 @@ def coq_scenario(model_db, scn, init_mtus=None):
 def coq_scenario_multi(model_db, scn, init_mtus=None):
     """closed Coq term for a several-bearer scenario: (outputs per op, final values, final mtus)"""
     db = coq_list(model_db, coq_attr)
-    ops = '[' + '; '.join(f'({k}%nat, {coq_op(o, model_db)})' for k, o in scn_ops(scn)) + ']'
+    closes = any(o[0] == 'close' for _, o in scn_ops(scn))
+    if closes:
+        ops = '[' + '; '.join(f'MClose {k}%nat' if o[0] == 'close' else f'MOn {k}%nat ({coq_op(o, model_db)})'
+                              for k, o in scn_ops(scn)) + ']'
+    else:
+        ops = '[' + '; '.join(f'({k}%nat, {coq_op(o, model_db)})' for k, o in scn_ops(scn)) + ']'
+    runner = 'mrun2' if closes else 'mrun'
     init_mtus = init_mtus or [None] * len(scn_bearers(scn))
     bs = '[' + '; '.join(coq_bearer(b, m) for b, m in zip(scn_bearers(scn), init_mtus)) + ']'
-    return (f"let r := mrun (minit {db} {coq_z(scn.get('max_mtu', 517))} {bs}) {ops} in "
+    return (f"let r := {runner} (minit {db} {coq_z(scn.get('max_mtu', 517))} {bs}) {ops} in "
             f"(opt_out_m r, final_values_m r, final_mtus r)")
 
 
